@@ -108,9 +108,13 @@ def fields(impl):
 
 
 def collapse(dump):
-    """ICU reports some malformed sequences byte by byte: runs of the replacement character (U+FFFD, in CIF 1.1 mode '*' —
-    the generated documents contain no other asterisk) count as one"""
-    return re.sub(r"(002a)+", "002a", re.sub(r"(fffd)+", "fffd", dump)).rstrip()
+    """ICU reports some malformed sequences byte by byte: runs of the replacement character count as one.  WHICH substitution
+    character the character source writes is not fixed by the documentation (cif.h, CIF_INVALID_CHAR: "mapping the source
+    character to a substitution character"); ciffile.c chooses U+FFFD or '*' by scanner->cif_version AT DECODING TIME, and the
+    first 4096-byte block of an input whose version is still to be read from its magic code (e.g. UTF-16 with a signature and
+    prefer_cif2 = 0) is decoded before the version is known — a malformed sequence there becomes '*' also in a CIF 2.0 document,
+    later ones U+FFFD.  Both count as "the replacement character" here (the generated documents contain no other asterisk)."""
+    return re.sub(r"(002a|fffd)+", "fffd", dump).rstrip()
 
 
 def verdict(policy, log, rc, what):
